@@ -1,6 +1,7 @@
 import GlyProofs.Smiles.Graft
 import GlyProofs.Smiles.TreeBalance
 import GlyProofs.Mono.LinkAtom
+import GlyProofs.Poly.PlanSlots
 /-
   C05 — Condensation mass balance. (Property theorems only.)
 -/
@@ -66,5 +67,14 @@ theorem C05_mark_one_atom (v : View) (x : Numbering) (pos oZ nZ : Nat) (v' : Vie
     ∃ r, (((v.at r).z = 8 ∧ v' = v.setZ r oZ) ∨ ((v.at r).z = 7 ∧ v' = v.setZ r nZ)) ∧
       (∀ j, j ≠ r → v'.at j = v.at j) ∧ v'.adj = v.adj ∧ v'.atoms.length = v.atoms.length :=
   mark_spec v x pos oZ nZ v' h
+
+open Gly.Plan in
+/-- **One linkage per residue but the reducing end**: the binding plan (Model of `Merger.mark` / `merge_int`, `C01_linkage_plan`) has
+    exactly one linkage per residue written to the left of the reducing end – the children of the linkages are the ids 1, 2, …, each
+    once – so a glycan of `n` residues is assembled with `n - 1` condensations, each costing one marker (`C05_mark_one_atom`,
+    `C05_tree_atoms`). -/
+theorem C05_one_linkage_per_residue {α : Type} (down : Nat → α → α) (w : WalkCfg) (F : GF) (a : α) :
+    (linkages down w F 0 1 0 a).length = F.size ∧ (linkages down w F 0 1 0 a).map (·.2.1) = List.range' 1 F.size :=
+  ⟨linkages_length down w F 0 1 0 a, linkages_children down w F 0 1 0 a⟩
 
 end Gly.Props.C05
